@@ -551,7 +551,10 @@ def r5(ctx, fs):
                 tl, tg = _ret(fl), _ret(fg)
                 dual = _flip(tl)
                 ctx.instance(rid, [fl.id, 'dual'], {'less': show(tl), 'greater': show(tg)})
-                if dual != tg:
+                # `a > b` may also simply be written as `b < a` (delegation to the dual operator with the operands swapped)
+                pn = (fg['params'][0].get('name') if fg.get('params') else None)
+                deleg = isinstance(tg, tuple) and len(tg) == 3 and tg[0] == {'operator<': '<', 'operator<=': '<='}[lt] and tg[1] == pn and tg[2] == 'this' and sig and cls.rsplit('::', 1)[-1] in sig[0]
+                if dual != tg and not deleg:
                     ctx.finding(rid, fg.id, 'dual', '%s is not %s with the comparisons reversed: %s  vs  %s' % (fg.id.replace('smt::', ''), lt, show(tg), show(tl)), loc=fg.loc,
                                 expect='a > b  <=>  b < a')
     R = 'smt::rational::'
@@ -676,9 +679,135 @@ def r6(ctx, fs):
         ctx.finding(rid, f.id, 'normalised', 'rational::operator+=: the general case does not normalise its result: equal values get different representations (1/2 + 1/2 != 1)', loc=f.loc)
 
 
+def r7(ctx, fs):
+    rid = 'C15.R7'
+    ctx.rule(rid, 'smt::lin keeps no zero coefficient: every `it->second += c` / `-= c` on a term found in `vars` is followed, on every path, by the test `it->second == ZERO`, and the term is erased '
+                  'when it holds (a cancelled variable that stays in the expression with coefficient 0 is multiplied with its - possibly infinite - bounds)', floor=4)
+    from ..tables import region_of, path_literals
+    n_sites = 0
+    for f in fs.defined():
+        if f.get('class') != 'smt::lin' and not (f.name.startswith('smt::operator') and any('smt::lin' in (p.get('t') or '') for p in f.get('params') or ())):
+            continue
+        env = LocalEnv(f)
+        cn = lambda n: canon(n, env, subst=False)
+        for u in f.nodes():
+            if u.get('k') not in ('CXXOperatorCallExpr', 'CompoundAssignOperator', 'BinaryOperator') or u.get('op') not in ('+=', '-='):
+                continue
+            t = cn(u)
+            tgt = t[1] if isinstance(t, tuple) and len(t) == 3 else None
+            if not (isinstance(tgt, tuple) and len(tgt) == 3 and tgt[0] == '.' and tgt[2] == 'second'):
+                continue
+            it = tgt[1]
+            n_sites += 1
+            ok = True
+            seen = False
+            for p in enum_paths(region_of(f, u)):
+                if not any(m is u for st in p.stmts for m in walk(st)):
+                    continue
+                seen = True
+                L = path_literals(p, cn) or []
+                z = [c for c in L if c[0] == 'if' and c[1] in (('==', tgt, 'smt::rational::ZERO'), ('==', 'smt::rational::ZERO', tgt))]
+                erased = any(m.get('k') == 'CXXMemberCallExpr' and (m.get('callee_name') or '').endswith('::erase') and cn(m)[-1] == it for st in p.stmts for m in walk(st))
+                if not z or (z[-1][2] is True and not erased) or (z[-1][2] is False and erased):
+                    ok = False
+            ok = ok and seen
+            ctx.instance(rid, [f.id, short(u.get('loc'))], {'function': f.id, 'update': show(t)[:160], 'zero_coefficient_erased': ok})
+            if not ok:
+                ctx.finding(rid, f.id, 'zero:%s' % show(t)[:60], '%s updates the coefficient %s without removing the term when it becomes zero: the expression keeps a variable with coefficient 0, and every '
+                            'bound computation multiplies it with the (possibly infinite) bounds of that variable' % (f.id.replace('smt::', ''), show(tgt)), node=u,
+                            expect='if (it->second == rational::ZERO) vars.erase(it);')
+    if n_sites < 4:
+        raise AnalysisBroken('C15.R7: only %d coefficient updates of smt::lin found (expected >= 4)' % n_sites)
+
+
+def _leaves(t, out):
+    """operands of a chain of string concatenations (the order is not kept by the canonical form)"""
+    if isinstance(t, tuple) and t and t[0] == '+' and len(t) == 3:
+        _leaves(t[1], out)
+        _leaves(t[2], out)
+    elif isinstance(t, tuple) and t and t[0] == 'new' and len(t) == 3 and 'basic_string' in str(t[1]):
+        _leaves(t[2], out)
+    else:
+        out.append(t)
+
+
+def r8(ctx, fs):
+    rid = 'C15.R8'
+    ctx.rule(rid, 'to_string(const lin&) - the key under which the LRA theory shares slack variables - prints every term with the sign of ITS coefficient: " + " and the coefficient when it is positive, '
+                  '" - " and its negation when it is not (" + x" / " - x" for +-1); decided on the paths of the loop over the terms', floor=4)
+    f = [g for g in fs.fns_named('smt::to_string') if g.is_def and len(g['params']) == 1 and 'smt::lin' in g['params'][0]['t']]
+    if len(f) != 1:
+        raise AnalysisBroken('to_string(const lin&) not found')
+    f = f[0]
+    env = LocalEnv(f)
+    cn = lambda n: canon(n, env, subst=False)
+    loops = [n for n in f.nodes() if n.get('k') in ('ForStmt', 'CXXForRangeStmt', 'WhileStmt')]
+    if not loops:
+        raise AnalysisBroken('%s: loop over the terms not found' % f.id)
+    from ..tables import path_literals
+    ONE = 'smt::rational::ONE'
+    n = 0
+    for p in enum_paths(loops[0]['slots']['body']):
+        L = path_literals(p, cn) or []
+        # path-local definitions (a local whose initialiser was selected by a ?: on this path)
+        local = {}
+        for st in p.stmts:
+            if st.get('k') == 'DeclStmt':
+                for d in st.get('c') or ():
+                    if d.get('k') == 'VarDecl' and isinstance(d.get('init'), dict):
+                        local[d['name']] = cn(d['init'])
+
+        def res(t, depth=0):
+            if isinstance(t, str) and t in local and depth < 4:
+                return res(local[t], depth + 1)
+            if isinstance(t, tuple):
+                return tuple(res(x, depth) for x in t)
+            return t
+        C = None
+        for c in L:
+            if c[0] == 'if' and isinstance(c[1], tuple) and c[1][0] == '==' and ONE in c[1][1:]:
+                C = [x for x in c[1][1:] if x != ONE][0]
+        if C is None:
+            continue
+        one = any(c[0] == 'if' and c[2] and c[1] in (('==', C, ONE), ('==', ONE, C)) for c in L)
+        mone = any(c[0] == 'if' and c[2] and isinstance(c[1], tuple) and c[1][0] == '==' and C in c[1][1:] and ('neg', ONE) in c[1][1:] for c in L)
+        pos = None
+        for c in L:
+            if c[0] == 'if' and isinstance(c[1], tuple) and c[1][0] == 'call' and str(c[1][1]).endswith('is_positive') and res(c[1][2]) == C:
+                pos = c[2]
+        first = any(c[0] == 'if' and c[2] and isinstance(c[1], tuple) and c[1][0] == '==' and any(isinstance(x, tuple) and x and x[0] == 'mcall' and str(x[1]).endswith('::cbegin') for x in c[1][1:]) for c in L)
+        pieces = []
+        for st in p.stmts:
+            t = cn(st)
+            if isinstance(t, tuple) and t and t[0] == '+=' and len(t) == 3:
+                _leaves(res(t[2]), pieces)
+        strs = [x[1] for x in pieces if isinstance(x, tuple) and x[0] == 'str']
+        plus, minus = any('+' in x for x in strs), any('-' in x for x in strs)
+        mags = [x[2] for x in pieces if isinstance(x, tuple) and len(x) == 3 and x[0] == 'call' and x[1] == 'smt::to_string']
+        n += 1
+        if one:
+            good = not mags and not minus and (plus or first)
+        elif mone:
+            good = not mags and minus and not plus
+        elif pos is True:
+            good = mags == [C] and not minus and (plus or first)
+        elif pos is False:
+            good = mags == [('neg', C)] and minus and not plus
+        else:
+            good = first and mags == [C] and not plus and not minus      # the leading term prints its signed coefficient
+        ctx.instance(rid, [f.id, 'path#%d' % n], {'coefficient': 'ONE' if one else '-ONE' if mone else 'positive' if pos else 'not positive' if pos is False else 'any (leading term)',
+                                                  'prints': sorted(strs) + [show(m) for m in mags], 'ok': good})
+        if not good:
+            ctx.finding(rid, f.id, 'term:%s/%s/%s' % (one, mone, pos), 'to_string(const lin&): a term whose coefficient is %s is printed as %s: two different expressions get the same text, and lra_theory::new_var(lin) '
+                        'gives them the same slack variable' % ('+1' if one else '-1' if mone else 'positive' if pos else 'negative' if pos is False else 'of unknown sign', sorted(strs) + [show(m) for m in mags]),
+                        node=p.stmts[-1] if p.stmts else loops[0])
+
+
 def run(ctx):
     fs = ctx.facts('P')
     r1(ctx, fs)
     r4(ctx, fs)
     r5(ctx, fs)
     r6(ctx, fs)
+    r7(ctx, fs)
+    r8(ctx, fs)
